@@ -11,24 +11,85 @@ import sys
 from vf import common  # noqa: F401  (sets sys.path)
 
 
+REPLAY_CPU_S = int(__import__("os").environ.get("VERIF_REPLAY_CPU_S", "40"))
+REPLAY_AS_BYTES = 12 << 30
+
+
+def _one(mod, d):
+    try:
+        return mod.replay(d)
+    except MemoryError:
+        return {"reproduced": False, "detail": "replay ran out of its memory allowance (concrete arithmetic on huge integers)"}
+    except Exception as e:  # noqa
+        import traceback
+        return {"reproduced": False,
+                "detail": "replay raised %s: %s\n%s" % (type(e).__name__, e, traceback.format_exc()[-1500:])}
+
+
+def _parallel(mod, datas):
+    """One forked process per candidate (at most NPROC at a time), each under a CPU and an address-space limit:
+    concrete runs of a counterexample can involve astronomically large integers (z <- t*z*z, 3**x)."""
+    import os
+    import pickle
+    import resource
+    import tempfile
+    import time
+    nproc = common.NPROC
+    tmpd = tempfile.mkdtemp(prefix="vf_replay_")
+    out = [None] * len(datas)
+    pending = list(range(len(datas)))[::-1]
+    active = {}
+    try:
+        while pending or active:
+            while pending and len(active) < nproc:
+                i = pending.pop()
+                respath = os.path.join(tmpd, "r%d.pkl" % i)
+                sys.stdout.flush()
+                pid = os.fork()
+                if pid == 0:
+                    code = 1
+                    try:
+                        resource.setrlimit(resource.RLIMIT_CPU, (REPLAY_CPU_S, REPLAY_CPU_S + 5))
+                        resource.setrlimit(resource.RLIMIT_AS, (REPLAY_AS_BYTES, REPLAY_AS_BYTES))
+                        r = _one(mod, datas[i])
+                        with open(respath + ".tmp", "wb") as f:
+                            pickle.dump(r, f)
+                        os.rename(respath + ".tmp", respath)
+                        code = 0
+                    finally:
+                        os._exit(code)
+                active[pid] = (i, respath)
+            time.sleep(0.01)
+            for pid in list(active):
+                i, respath = active[pid]
+                done, status = os.waitpid(pid, os.WNOHANG)
+                if done == 0:
+                    continue
+                del active[pid]
+                if os.path.exists(respath):
+                    with open(respath, "rb") as f:
+                        out[i] = pickle.load(f)
+                else:
+                    out[i] = {"reproduced": False, "detail": "replay process ended without a result (wait status %d: CPU limit of %d s or "
+                                                            "memory limit exceeded)" % (status, REPLAY_CPU_S)}
+    finally:
+        import shutil
+        shutil.rmtree(tmpd, ignore_errors=True)
+    return out
+
+
 def main(argv):
     batch = argv[1] == "--batch"
     path = argv[2] if batch else argv[1]
     with open(path) as f:
         doc = json.load(f)
-    pid = doc["property"].replace("_unconfirmed", "")
+    pid = doc["property"].replace("_unconfirmed", "").replace("_soft", "")
     mod = importlib.import_module("vf.checks." + pid.lower())
     datas = doc["batch"] if batch else [doc["data"]]
-    out = []
-    for d in datas:
-        try:
-            r = mod.replay(d)
-        except Exception as e:  # noqa
-            import traceback
-            r = {"reproduced": False,
-                 "detail": "replay raised %s: %s\n%s" % (type(e).__name__, e,
-                                                        traceback.format_exc()[-1500:])}
-        out.append(r)
+    if batch and len(datas) > 1:
+        out = _parallel(mod, datas)
+    else:
+        out = [_one(mod, d) for d in datas]
     if batch:
         print("REPLAY-RESULTS " + json.dumps(out, default=str))
     else:
